@@ -66,6 +66,17 @@ func (e *Exec) call(s *State, site ssa.Instruction, cc *ssa.CallCommon, res ssa.
 		// call through a function value: a closure created in this function, or an opaque function
 		fv := e.val(s, cc.Value)[0]
 		if cv, ok := e.root.closures[fv]; ok {
+			if sp := e.p.specFor(cv.fn); sp != nil && !sp.Inline {
+				// a closure under its own contract: its captured variables are named by the contract
+				fm := map[string]SV{}
+				for i, fvar := range cv.fn.FreeVars {
+					fm[fvar.Name()] = SV{t: cv.bindings[i], typ: fvar.Type()}
+				}
+				e.callFree = fm
+				e.contractCall(s, site, cv.fn, sp, e.callArgs(s, site, cc), res)
+				e.callFree = nil
+				return
+			}
 			e.inline(s, site, cv.fn, e.callArgs(s, site, cc), res, cv)
 			return
 		}
@@ -401,7 +412,7 @@ func (e *Exec) applyContract(s *State, site ssa.Instruction, calleeName string, 
 		}
 	}
 	pre := s.clone()
-	preEnv := &Env{x: e, fn: scopeFn, cur: pre, old: pre, vars: vars}
+	preEnv := &Env{x: e, fn: scopeFn, cur: pre, old: pre, vars: vars, free: e.callFree}
 	preEnv.oldEnv = preEnv
 	short := calleeName
 	if i := strings.LastIndex(short, "/"); i >= 0 {
@@ -496,14 +507,14 @@ func (e *Exec) applyContract(s *State, site ssa.Instruction, calleeName string, 
 
 func (e *Exec) assumeEnsures(s, pre *State, sp *FuncSpec, scopeFn *ssa.Function, vars map[string]SV, results *types.Tuple, rv Val) {
 	c := e.c
-	oldEnv := &Env{x: e, fn: scopeFn, cur: pre, old: pre, vars: vars}
+	oldEnv := &Env{x: e, fn: scopeFn, cur: pre, old: pre, vars: vars, free: e.callFree}
 	oldEnv.oldEnv = oldEnv
 	pv := map[string]SV{}
 	for k, v := range vars {
 		pv[k] = v
 	}
 	bindResults(pv, results, rv)
-	post := &Env{x: e, fn: scopeFn, cur: s, old: pre, vars: pv, oldEnv: oldEnv, hyp: true}
+	post := &Env{x: e, fn: scopeFn, cur: s, old: pre, vars: pv, oldEnv: oldEnv, hyp: true, free: e.callFree}
 	for _, en := range sp.Ensures {
 		// a clause with recorded findings does not hold on the recorded inputs:
 		// callers may rely on it only outside them
@@ -809,8 +820,8 @@ type loopInfo struct {
 }
 
 func (e *Exec) envAt(s *State, locals bool) *Env {
-	env := &Env{x: e, fn: e.fn, cur: s, old: e.entry, vars: e.paramVars(), locals: locals}
-	old := &Env{x: e, fn: e.fn, cur: e.entry, old: e.entry, vars: env.vars}
+	env := &Env{x: e, fn: e.fn, cur: s, old: e.entry, vars: e.paramVars(), locals: locals, free: e.freeMap}
+	old := &Env{x: e, fn: e.fn, cur: e.entry, old: e.entry, vars: env.vars, free: e.freeMap}
 	if e != e.root && e.rootScoped {
 		// a callee that only exists inside the root (a closure, or a helper with a
 		// "Root>callee" contract): old() is the root's entry state, names are the root's
